@@ -216,9 +216,15 @@ func (e *esdtNFTCreateRoleTransfer) executeTransferNFTCreateChangeAtNextOwner(
 	tokenID := vmInput.Arguments[0]
 	nonce := big.NewInt(0).SetBytes(vmInput.Arguments[1]).Uint64()
 
-	err := saveLatestNonce(acntDst, tokenID, nonce)
+	currentNonce, err := getLatestNonce(acntDst, tokenID)
 	if err != nil {
 		return err
+	}
+	if nonce > currentNonce {
+		err = saveLatestNonce(acntDst, tokenID, nonce)
+		if err != nil {
+			return err
+		}
 	}
 
 	esdtTokenRoleKey := append(roleKeyPrefix, tokenID...)
